@@ -177,9 +177,10 @@ def enable_reprlib_c2():
 def c2packet_to_record(c2packet: C2Packet) -> Record:
     """Convert `c2packet` to a flow.record."""
     fields = [("bytes", "raw_http")]
-    kv = c2packet.__dict__
-    for field in c2packet._type.fields:
-        ftype = str(field.type)
+    kv = {}
+    for field in c2packet.fields.values():
+        ftype = field.type.__name__
+        kv[field.name] = getattr(c2packet, field.name)
         if ftype.startswith("char"):
             ftype = "bytes"
         elif ftype == "uint8":
@@ -192,7 +193,7 @@ def c2packet_to_record(c2packet: C2Packet) -> Record:
         elif field.name == "ip":
             ftype = "net.ipaddress"
         fields.append((ftype, field.name))
-    PacketDescriptor = RecordDescriptor(f"Beacon/{c2packet._type.name}", fields)
+    PacketDescriptor = RecordDescriptor(f"Beacon/{type(c2packet).__name__}", fields)
     return PacketDescriptor(**kv)
 
 
